@@ -191,6 +191,12 @@ pub fn entries(s: &Setup, after_transfer: bool) -> Vec<Entry> {
         &white_whale_std::vault_network::vault::ExecuteMsg::Callback(white_whale_std::vault_network::vault::CallbackMsg::AfterTrade { old_balance: Uint128::zero(), loan_amount: Uint128::zero() }),
         &[h.vault.vault.as_str()],
     ));
+    v.push(e(
+        "vault.Callback(AfterTrade)[from inside an open loan]",
+        &h.vault.vault,
+        &white_whale_std::vault_network::vault::ExecuteMsg::Callback(white_whale_std::vault_network::vault::CallbackMsg::AfterTrade { old_balance: Uint128::zero(), loan_amount: Uint128::zero() }),
+        &[],
+    ));
     // ---- vault router
     let vr = &h.vault_router;
     v.push(e("vault_router.UpdateConfig", vr, &white_whale_std::vault_network::vault_router::ExecuteMsg::UpdateConfig { owner: None, vault_factory_addr: Some(vf.clone()) }, &[own]));
@@ -334,6 +340,27 @@ fn is_allowed(en: &Entry, caller_addr: &str, current_owner: &str) -> bool {
 
 pub fn run_case(w: &mut World, s: &Setup, en: &Entry, caller: &(String, String), after_transfer: bool, cx: &mut Cx) {
     w.restore(&s.snap);
+    if en.label.contains("[from inside an open loan]") {
+        // the internal callback sent by the borrower contract while its own flash loan of that vault is open (the loan
+        // is then repaid exactly, so only the forged callback can make the transaction fail); one row, not per caller
+        if caller.0 != "via-proxy-contract" {
+            cx.count("inside_loan:not_applicable_to_caller");
+            return;
+        }
+        let before = w.kv_clone();
+        let r = crate::scn_vault::direct_loan(w, &s.h.vault, &FH_FEES, 1000, &[crate::scn_vault::Step::CallAfterTrade, crate::scn_vault::Step::Repay(crate::scn_vault::RepayKind::Exact)]);
+        cx.count("unauthorised:attempt");
+        cx.check("unauthorised_caller.rejected", r.is_err(), || format!("{}: the borrower's own AfterTrade call inside its loan was accepted", en.label));
+        if r.is_err() {
+            cx.check("unauthorised_caller.changes_nothing", kv_equal(&before, &w.kv_clone()), || format!("{}: state changed on a rejected call", en.label));
+        }
+        // control: the same loan without the forged callback goes through, so the rejection is due to the callback
+        w.restore(&s.snap);
+        let ok = crate::scn_vault::direct_loan(w, &s.h.vault, &FH_FEES, 1000, &[crate::scn_vault::Step::Repay(crate::scn_vault::RepayKind::Exact)]);
+        cx.count("authorised:attempt");
+        cx.check("authorised_caller.succeeds", ok.is_ok(), || format!("control loan without the forged callback failed: {:?}", ok.as_ref().err().map(|e| e.msg().to_string())));
+        return;
+    }
     let current_owner = if after_transfer { NEWOWNER } else { OWNER };
     // every caller can afford the attached funds, so that a rejection is the contract's decision and not the bank's
     if !caller.1.starts_with("proxy:") {
